@@ -100,12 +100,50 @@ def escape_ambiguous(ids):
     return [i for i in ids if re.search(r"__\d+__", i)]
 
 
+def third_party_variant(path, out, rng):
+    """Rewrite a valid fbc-v2 document written by cobrapy into an equally valid document of
+    a shape cobrapy itself never writes: a species referenced more than once by a reaction
+    (on both sides, or twice on one side).  Returns a label, or None if not applicable."""
+    data = open(path, "rb").read()
+    root = ET.fromstring(data)
+    ns = root.tag.split("}")[0] + "}"
+    rxns = [r for r in root.iter(ns + "reaction") if r.find(ns + "listOfReactants") is not None and len(r.find(ns + "listOfReactants"))]
+    if not rxns:
+        return None
+    done = []
+    for r in rng.sample(rxns, min(2, len(rxns))):
+        reac = r.find(ns + "listOfReactants")
+        prod = r.find(ns + "listOfProducts")
+        src = rng.choice(list(reac))
+        kind = rng.choice(["both-sides", "both-sides", "twice-as-reactant"])
+        new = ET.Element(ns + "speciesReference", dict(src.attrib))
+        new.attrib["stoichiometry"] = rng.choice(["1", "2", "0.5", src.attrib.get("stoichiometry", "1")])
+        if kind == "both-sides":
+            if prod is None:
+                prod = ET.SubElement(r, ns + "listOfProducts")
+                # listOfProducts must follow listOfReactants
+                r.remove(prod)
+                r.insert(list(r).index(reac) + 1, prod)
+            prod.append(new)
+        else:
+            reac.append(new)
+        done.append(kind)
+    ET.register_namespace("", ns.strip("{}"))
+    ET.register_namespace("fbc", "http://www.sbml.org/sbml/level3/version1/fbc/version2")
+    ET.register_namespace("groups", "http://www.sbml.org/sbml/level3/version1/groups/version1")
+    with open(out, "wb") as f:
+        f.write(ET.tostring(root, xml_declaration=True, encoding="UTF-8"))
+    return "+".join(sorted(set(done)))
+
+
 def run_generated(desc, acc):
     import cobra
     import cobra.io as cio
 
     with tempfile.TemporaryDirectory(prefix="cv-c10-") as tmpdir:
+        cfg0 = cobra.Configuration().bounds
         for case in range(desc.get("first", 0), desc.get("first", 0) + desc["cases"]):
+            cobra.Configuration().bounds = cfg0
             rng = gen.rng_for("C10", desc["base"], case)
             f_replace = rng.choice(["default", "default", "default", "none"])
             style = rng.choice(gen.ID_STYLES) if f_replace == "default" else "plain"
@@ -120,8 +158,19 @@ def run_generated(desc, acc):
                 if not all(sid_clean(x.id) for x in list(model.reactions) + list(model.metabolites) + list(model.genes)):
                     acc.count("skipped_not_sid_clean")
                     continue
-            for r in rng.sample(list(model.reactions), min(3, len(model.reactions))):
-                r.bounds = rng.choice([(2000.0, 3000.0), (-3000.0, -2000.0), (-0.5, 0.25), (float("-inf"), float("inf")), (0.0, float("inf")), (1e-3, 1e6), (5.0, 5.0), (-1234.5678, 0.1 + 0.2), (-1000.0, 1000.0), (0.0, 1000.0)])
+            cfg = cobra.Configuration()
+            cfg_old = cfg.bounds
+            cfg_new = rng.choice([None, None, None, (-10000.0, 10000.0), (-100.0, 100.0), (-999999.0, 999999.0), (-1000.0, 500.0), (0.0, 1000.0)])
+            extra_bounds = []
+            if cfg_new is not None:
+                # the default bounds are a run-time setting: written and read under another
+                # setting than the one in force when cobra was imported
+                cfg.bounds = cfg_new
+                acc.count("round_trips_under_changed_default_bounds")
+                extra_bounds = [(cfg_new[0], cfg_new[1]), (cfg_old[0], cfg_old[1]), (cfg_new[0], 0.0), (cfg_old[0], 0.0), (0.0, cfg_old[1]), (0.0, cfg_new[1])]
+                extra_bounds = [b for b in extra_bounds if b[0] <= b[1]] * 2
+            for r in rng.sample(list(model.reactions), min(4 if cfg_new else 3, len(model.reactions))):
+                r.bounds = rng.choice(extra_bounds + [(2000.0, 3000.0), (-3000.0, -2000.0), (-0.5, 0.25), (float("-inf"), float("inf")), (0.0, float("inf")), (1e-3, 1e6), (5.0, 5.0), (-1234.5678, 0.1 + 0.2), (-1000.0, 1000.0), (0.0, 1000.0)])
             if rng.random() < 0.3:
                 model.objective_direction = "min"
             if len(model.groups):
@@ -173,6 +222,17 @@ def run_generated(desc, acc):
                 code = re.search(r"E\d+ \((\w+)\)|\[(\w+)\]", first)
                 acc.violation(f"C10/invalid-document/{kind}", f"the written SBML document is rejected by the validator: {kind}: {first[:200]}", dict(ident, errors={k: [str(x)[:300] for x in v] for k, v in bad.items()}, model=_brief(a)))
                 continue
+            # (d') the same document in a shape only third parties write
+            if f_replace == "default" and rng.random() < 0.35:
+                tp = os.path.join(tmpdir, "third_party.xml")
+                try:
+                    lab3 = third_party_variant(path, tp, rng)
+                except Exception as e:
+                    lab3 = None
+                    acc.harness_error("third-party variant", e)
+                if lab3:
+                    acc.add("third_party_shapes", lab3)
+                    cross_check(acc, tp, dict(ident, third_party=lab3), "third-party")
             # (b) equivalence
             b = ioequiv.describe(m1)
             d = ioequiv.diff(a, b, digits=15, ignore=("reactions.subsystem",))
@@ -309,72 +369,85 @@ def run_shipped(desc, acc):
     for path in files:
         if not os.path.exists(path):
             continue
-        ident = {"file": path}
-        acc.journal(dict(ident, about_to_run="read shipped"))
-        catcher = LogCatcher()
-        logging.disable(logging.NOTSET)
-        lg = logging.getLogger("cobra.io.sbml")
-        lg.addHandler(catcher)
-        old_level = lg.level
-        lg.setLevel(logging.WARNING)
-        try:
-            with warnings.catch_warnings(record=True) as wlist:
-                warnings.simplefilter("always")
-                m = cio.read_sbml_model(path)
-        except Exception as e:
-            acc.ev()
-            acc.violation(f"C10/shipped/read-raised/{type(e).__name__}", f"reading {os.path.basename(path)} raised {e}", ident)
-            continue
-        finally:
-            lg.removeHandler(catcher)
-            lg.setLevel(old_level)
-            logging.disable(logging.CRITICAL)
-        said = " ".join(catcher.lines + [str(w.message) for w in wlist])
+        cross_check(acc, path, {"file": path}, "shipped")
+
+
+def cross_check(acc, path, ident, label):
+    """Read `path` with cobrapy and with the independent reader; every reaction's
+    stoichiometry and bounds and the active objective must agree unless cobrapy logged a
+    warning that names the element."""
+    import cobra.io as cio
+    from cobra.io.sbml import F_REACTION, F_REPLACE, F_SPECIE
+    from cobra.util.solver import linear_reaction_coefficients
+
+    acc.journal(dict(ident, about_to_run="read shipped"))
+    catcher = LogCatcher()
+    logging.disable(logging.NOTSET)
+    lg = logging.getLogger("cobra.io.sbml")
+    lg.addHandler(catcher)
+    old_level = lg.level
+    lg.setLevel(logging.WARNING)
+    try:
+        with warnings.catch_warnings(record=True) as wlist:
+            warnings.simplefilter("always")
+            m = cio.read_sbml_model(path)
+    except Exception as e:
         acc.ev()
-        acc.count("shipped_files_read")
-        ind = independent_read(path)
-        if ind is None:
-            acc.count("shipped_files_not_fbc2_read_only")
+        acc.violation(f"C10/{label}/read-raised/{type(e).__name__}", f"reading {os.path.basename(path)} raised {e}", ident)
+        return
+    finally:
+        lg.removeHandler(catcher)
+        lg.setLevel(old_level)
+        logging.disable(logging.CRITICAL)
+    said = " ".join(catcher.lines + [str(w.message) for w in wlist])
+    acc.ev()
+    acc.count(label.replace("-", "_") + "_files_read")
+    ind = independent_read(path)
+    if ind is None:
+        acc.count("shipped_files_not_fbc2_read_only")
+        return
+    acc.count(label.replace("-", "_") + "_files_cross_checked")
+    fr, fs = F_REPLACE[F_REACTION], F_REPLACE[F_SPECIE]
+    objc = {r.id: v for r, v in linear_reaction_coefficients(m).items()}
+    nbad = 0
+    for sid, rr in ind["reactions"].items():
+        rid = fr(sid)
+        acc.count(label.replace("-", "_") + "_reactions_cross_checked")
+        if rid not in m.reactions:
+            if sid not in said and rid not in said:
+                acc.violation("C10/" + label + "/reaction-silently-dropped", f"{os.path.basename(path)}: reaction {sid} is not in the model and no warning names it", dict(ident, reaction=sid))
+                nbad += 1
             continue
-        acc.count("shipped_files_cross_checked")
-        fr, fs = F_REPLACE[F_REACTION], F_REPLACE[F_SPECIE]
-        objc = {r.id: v for r, v in linear_reaction_coefficients(m).items()}
-        nbad = 0
-        for sid, rr in ind["reactions"].items():
-            rid = fr(sid)
-            acc.count("shipped_reactions_cross_checked")
-            if rid not in m.reactions:
+        r = m.reactions.get_by_id(rid)
+        got = {mm.id: v for mm, v in r.metabolites.items()}
+        want = {}
+        for k, v in rr["stoich"].items():
+            want[fs(k)] = want.get(fs(k), 0.0) + v
+        want = {k: v for k, v in want.items() if v != 0}
+        if set(got) != set(want) or any(not ioequiv.feq(float(got[k]), float(want[k]), 15) for k in got):
+            if sid not in said and rid not in said:
+                acc.violation("C10/" + label + "/stoichiometry-silently-altered", f"{os.path.basename(path)}: {sid} file says {want}, model has {got}", dict(ident, reaction=sid))
+                nbad += 1
+        for nm, fv, mv in (("lower", rr["lb"], r.lower_bound), ("upper", rr["ub"], r.upper_bound)):
+            if fv is not None and not ioequiv.feq(float(fv), float(mv), 15):
                 if sid not in said and rid not in said:
-                    acc.violation("C10/shipped/reaction-silently-dropped", f"{os.path.basename(path)}: reaction {sid} is not in the model and no warning names it", dict(ident, reaction=sid))
+                    acc.violation(f"C10/{label}/{nm}-bound-silently-altered", f"{os.path.basename(path)}: {sid} {nm} bound in file {fv}, model has {mv}", dict(ident, reaction=sid))
                     nbad += 1
-                continue
-            r = m.reactions.get_by_id(rid)
-            got = {mm.id: v for mm, v in r.metabolites.items()}
-            want = {}
-            for k, v in rr["stoich"].items():
-                want[fs(k)] = want.get(fs(k), 0.0) + v
-            want = {k: v for k, v in want.items() if v != 0}
-            if set(got) != set(want) or any(not ioequiv.feq(float(got[k]), float(want[k]), 15) for k in got):
-                if sid not in said and rid not in said:
-                    acc.violation("C10/shipped/stoichiometry-silently-altered", f"{os.path.basename(path)}: {sid} file says {want}, model has {got}", dict(ident, reaction=sid))
-                    nbad += 1
-            for nm, fv, mv in (("lower", rr["lb"], r.lower_bound), ("upper", rr["ub"], r.upper_bound)):
-                if fv is not None and not ioequiv.feq(float(fv), float(mv), 15):
-                    if sid not in said and rid not in said:
-                        acc.violation(f"C10/shipped/{nm}-bound-silently-altered", f"{os.path.basename(path)}: {sid} {nm} bound in file {fv}, model has {mv}", dict(ident, reaction=sid))
-                        nbad += 1
-            if nbad > 3:
-                break
-        if ind["objective"] is not None:
-            want = {fr(k): v for k, v in ind["objective"]["coefs"].items()}
-            if {k: float(v) for k, v in objc.items()} != {k: float(v) for k, v in want.items()} and "objective" not in said.lower():
-                acc.violation("C10/shipped/objective-silently-altered", f"{os.path.basename(path)}: active objective in file {want}, model reports {objc}", ident)
-            wantdir = {"maximize": "max", "minimize": "min"}.get(ind["objective"]["type"])
-            if wantdir and m.objective_direction != wantdir and "objective" not in said.lower():
-                acc.violation("C10/shipped/objective-direction-silently-altered", f"{os.path.basename(path)}: file says {ind['objective']['type']}, model {m.objective_direction}", ident)
+        if nbad > 3:
+            break
+    if ind["objective"] is not None:
+        want = {fr(k): v for k, v in ind["objective"]["coefs"].items()}
+        if {k: float(v) for k, v in objc.items()} != {k: float(v) for k, v in want.items()} and "objective" not in said.lower():
+            acc.violation("C10/" + label + "/objective-silently-altered", f"{os.path.basename(path)}: active objective in file {want}, model reports {objc}", ident)
+        wantdir = {"maximize": "max", "minimize": "min"}.get(ind["objective"]["type"])
+        if wantdir and m.objective_direction != wantdir and "objective" not in said.lower():
+            acc.violation("C10/" + label + "/objective-direction-silently-altered", f"{os.path.basename(path)}: file says {ind['objective']['type']}, model {m.objective_direction}", ident)
+    if label == "shipped":
         acc.nontrivial("shipped", os.path.basename(path))
         acc.sample({"shipped": os.path.basename(path), "reactions": len(ind["reactions"]), "warnings_logged": len(catcher.lines)}) if path.endswith("e_coli_core.xml") else None
-        acc.checkpoint()
+    acc.checkpoint()
+
+
 
 
 def run_shard(desc, acc):
